@@ -17,6 +17,7 @@ package activation
 
 import (
 	"errors"
+	"fmt"
 	"net"
 	"os"
 	"strconv"
@@ -78,6 +79,9 @@ func fdListener(fd uintptr) (net.Listener, error) {
 		return nil, err
 	}
 	file := os.NewFile(fd, "FD_"+strconv.Itoa(int(fd)))
+	if file == nil {
+		return nil, fmt.Errorf("inherited file descriptor %d is not valid", int(fd))
+	}
 	// FileListener dupes the fd so make sure the originally inherited one gets closed
 	defer file.Close()
 	return net.FileListener(file)
@@ -139,6 +143,8 @@ func socketmasterListener(index uint) (net.Listener, error) {
 	fd, err := strconv.Atoi(fds[index])
 	if err != nil {
 		return nil, err
+	} else if fd < 0 {
+		return nil, errors.New("invalid file descriptor in EINHORN_FDS")
 	}
 	return fdListener(uintptr(fd))
 }
